@@ -423,6 +423,19 @@ var vkKinds = []vkKind{
 		}
 		return true
 	}},
+	{"inject-authority-ns-neg", 0, func(c *vkTamperCtx, m *dns.Msg) bool {
+		// a (validly signed) negative answer padded with an UNSIGNED NS RRset owned INSIDE the zone (its apex): the
+		// validator leaves authority-section NS records out (referral remnants) and the zone filter keeps in-zone owners
+		if len(m.Answer) != 0 || !hasSOA(m.Ns) || c.zone == nil {
+			return false
+		}
+		rr, err := dns.NewRR(c.zone.Apex + " 300 IN NS ns.attacker.zz-other.")
+		if err != nil {
+			panic(err)
+		}
+		m.Ns = append(m.Ns, rr)
+		return true
+	}},
 	{"clone-first", 0, func(c *vkTamperCtx, m *dns.Msg) bool {
 		// a same-key-tag clone of the zone signing key ahead of the genuine keys
 		if c.q.Qtype != dns.TypeDNSKEY || c.zone == nil || c.zone.ZSK == nil {
